@@ -10,17 +10,61 @@ From RU Require Import Base.Prelude Base.Utf8 Base.Utf8Facts Model.AsciiSet Gen.
   Model.PercentEncoding Model.HostT Model.UrlRecord Model.Parser Model.Setters Model.WF
   Proofs.ListN Proofs.C14_Enc Proofs.C02_Enc Proofs.C02_Parts Proofs.C02_Opaque Proofs.C02_Path Proofs.C02_PathL1
   Proofs.C02_Reach Proofs.C02_AuthParts Proofs.C02_Auth Proofs.C02_AuthWf Proofs.C02_PathSp Proofs.C02_AuthSp
-  Proofs.C02_AuthMain.
+  Proofs.C02_AuthMain Proofs.C02_Hist Proofs.C02_HistInst Proofs.C02_SetQF Proofs.C02_Canon Proofs.C02_SetPort
+  Proofs.C02_JoinTail Proofs.C02_ReachPartial.
+From RU Require Import Model.Host Proofs.C09_Host Proofs.C16_RT6Model.
 Open Scope string_scope.
 Open Scope N_scope.
 Open Scope list_scope.
 
 (* ---------- A. the full statement ---------- *)
-(* Reachable = results of parse / join and of every mutator of Model/Setters.v (19 operations incl.
+(* Reachable2 = results of parse / join and of every mutator of Model/Setters.v (19 operations incl.
    path_segments_mut sessions and the quirks setters) with arbitrary arguments, outside the computable
-   classes Known_F_C03_5, Known_F_C02_3, Known_F_C02_2, Known_F_C02_8, Known_F_C02_4, Known_file_drive.
-   Not proved in full. *)
+   classes Known_F_C03_5, Known_F_C02_3, Known_F_C02_2, Known_F_C02_8, Known_F_C02_4, Known_F_C02_9,
+   Known_file_drive; host functions constrained by HostOK2 = HostRT /\ host_above /\ ip_clause
+   (Proofs/C02_Hist.v).  Not proved in full. *)
 Definition C02_full_statement : Prop := C02_statement.
+
+(* the first formulation (HostOK, Reachable without Known_F_C02_9): its host hypothesis cannot be met by
+   url::Host, so it says nothing about the real host functions; read for them it is false (F-C02-9) *)
+Definition C02_full_statement_v1 : Prop := C02_statement_v1.
+
+(* A.1  the old host record is refuted by each of two facts, both true of url::Host ... *)
+Theorem C02_HostOK_old_unsat : forall hp hpo hd,
+  hp [] <> Ok (HDomain []) \/ (exists a, a < 4294967296 /\ hpo (hd (HIpv4 a)) <> Ok (HIpv4 a)) ->
+  ~ HostOK hp hpo hd.
+Proof. exact HostOK_old_unsat. Qed.
+Check C02_HostOK_old_unsat : forall hp hpo hd,
+  hp [] <> Ok (HDomain []) \/ (exists a, a < 4294967296 /\ hpo (hd (HIpv4 a)) <> Ok (HIpv4 a)) ->
+  ~ HostOK hp hpo hd.
+Print Assumptions C02_HostOK_old_unsat.
+
+(* ... so no instance of the host model (Model/Host.v, any IDNA function) satisfies it *)
+Theorem C02_HostOK_old_unsat_model : forall idna, ~ HostOK (host_parse idna) host_parse_opaque host_display.
+Proof. exact HostOK_old_unsat_model. Qed.
+Check C02_HostOK_old_unsat_model : forall idna, ~ HostOK (host_parse idna) host_parse_opaque host_display.
+Print Assumptions C02_HostOK_old_unsat_model.
+
+(* A.2  the corrected record keeps everything true of the old one (old + host_above implies new) and is met by
+   the host model for every IDNA function satisfying IdnaOK (C09); IdnaOK has an instance *)
+Theorem C02_HostOK_old_implies_new : forall hp hpo hd, HostOK hp hpo hd -> host_above hp hpo hd -> HostOK2 hp hpo hd.
+Proof. exact HostOK_old_implies_new. Qed.
+Print Assumptions C02_HostOK_old_implies_new.
+
+Theorem C02_HostOK2_model : forall idna, IdnaOK idna -> HostOK2 (host_parse idna) host_parse_opaque host_display.
+Proof. exact HostOK2_model. Qed.
+Check C02_HostOK2_model : forall idna, IdnaOK idna ->
+  HostRT (host_parse idna) host_parse_opaque host_display /\ host_above (host_parse idna) host_parse_opaque host_display
+  /\ ip_clause (host_parse idna) host_parse_opaque host_display.
+Print Assumptions C02_HostOK2_model.
+
+Example C02_HostOK2_inhabited : IdnaOK idna_clean /\ HostOK2 (host_parse idna_clean) host_parse_opaque host_display.
+Proof. exact (conj idna_clean_ok HostOK2_inhabited). Qed.
+
+(* A.3  the corrected quantifier is a restriction of the old one *)
+Theorem C02_Reachable2_old : forall dbg hp hpo hd u, Reachable2 dbg hp hpo hd u -> Reachable dbg hp hpo hd u.
+Proof. exact Reachable2_old. Qed.
+Print Assumptions C02_Reachable2_old.
 
 (* ---------- B. the encoder is idempotent on its own output ---------- *)
 Theorem C02_encode_clean : forall S t, clean S t = true -> encode S t = t.
@@ -269,8 +313,8 @@ Proof. vm_compute. repeat split. Qed.
    for special schemes; classes (iii) and (iv) are sections G and H below (under one more hypothesis on
    the host display, host_above) *)
 Definition C02_L3_remaining_statement : Prop :=
-  forall dbg hp hpo hd, HostOK hp hpo hd -> forall ovr base input u,
-    usv_list input -> (match base with Some b => Reachable dbg hp hpo hd b | None => True end) ->
+  forall dbg hp hpo hd, HostOK2 hp hpo hd -> forall ovr base input u,
+    usv_list input -> (match base with Some b => Reachable2 dbg hp hpo hd b | None => True end) ->
     parse_url dbg hp hpo hd ovr base input = POk u -> Known_file_drive u = false ->
     Fixpoint_of_reparse dbg hp hpo hd u.
 
@@ -302,7 +346,20 @@ Check C02_L3_auth : forall dbg hp hpo hd, HostRT hp hpo hd -> forall u,
   canon_auth hp hpo hd STNotSpecial u -> parse_url dbg hp hpo hd None None (utf8_lossy (ser u)) = POk u.
 Print Assumptions C02_L3_auth.
 
-(* L1 + L3 under HostOK *)
+(* L1 + L3 under HostOK2, the hypothesis the host model meets *)
+Theorem C02_reparse_auth2 : forall dbg hp hpo hd ovr input u,
+  HostOK2 hp hpo hd -> usv_list input -> auth_input input = true ->
+  parse_url dbg hp hpo hd ovr None input = POk u ->
+  Fixpoint_of_reparse dbg hp hpo hd u /\ wf_b u = true /\ canon_auth hp hpo hd STNotSpecial u.
+Proof. exact reparse_auth_HostOK2. Qed.
+Check C02_reparse_auth2 : forall dbg hp hpo hd ovr input u,
+  HostOK2 hp hpo hd -> usv_list input -> auth_input input = true ->
+  parse_url dbg hp hpo hd ovr None input = POk u ->
+  parse_url dbg hp hpo hd None None (utf8_lossy (ser u)) = POk u /\ wf_b u = true /\ canon_auth hp hpo hd STNotSpecial u.
+Print Assumptions C02_reparse_auth2.
+
+(* L1 + L3 under the old HostOK (vacuous for url::Host - C02_HostOK_old_unsat_model; kept, superseded by
+   C02_reparse_auth2) *)
 Theorem C02_reparse_auth : forall dbg hp hpo hd ovr input u,
   HostOK hp hpo hd -> host_above hp hpo hd -> usv_list input -> auth_input input = true ->
   parse_url dbg hp hpo hd ovr None input = POk u ->
@@ -373,6 +430,18 @@ Check C02_L3_special : forall dbg hp hpo hd, HostRT hp hpo hd -> forall u,
   canon_special hp hpo hd u -> parse_url dbg hp hpo hd None None (utf8_lossy (ser u)) = POk u.
 Print Assumptions C02_L3_special.
 
+Theorem C02_reparse_special2 : forall dbg hp hpo hd input u,
+  HostOK2 hp hpo hd -> usv_list input -> special_input input = true ->
+  parse_url dbg hp hpo hd None None input = POk u ->
+  Fixpoint_of_reparse dbg hp hpo hd u /\ wf_b u = true /\ canon_special hp hpo hd u.
+Proof. exact reparse_special_HostOK2. Qed.
+Check C02_reparse_special2 : forall dbg hp hpo hd input u,
+  HostOK2 hp hpo hd -> usv_list input -> special_input input = true ->
+  parse_url dbg hp hpo hd None None input = POk u ->
+  parse_url dbg hp hpo hd None None (utf8_lossy (ser u)) = POk u /\ wf_b u = true /\ canon_special hp hpo hd u.
+Print Assumptions C02_reparse_special2.
+
+(* under the old HostOK (vacuous for url::Host; superseded by C02_reparse_special2) *)
 Theorem C02_reparse_special : forall dbg hp hpo hd input u,
   HostOK hp hpo hd -> host_above hp hpo hd -> usv_list input -> special_input input = true ->
   parse_url dbg hp hpo hd None None input = POk u ->
@@ -407,6 +476,18 @@ Proof. exact special_examples. Qed.
 
 (* ---------- I. the union of classes (i)-(iv): every URL parsed without a base whose scheme is not file ---------- *)
 (* nonfile_input: decided on the input - it has a scheme and the scheme is not "file" (no encoding override) *)
+Theorem C02_reparse_nonfile2 : forall dbg hp hpo hd input u,
+  HostOK2 hp hpo hd -> usv_list input -> nonfile_input input = true ->
+  parse_url dbg hp hpo hd None None input = POk u ->
+  Fixpoint_of_reparse dbg hp hpo hd u /\ wf_b u = true /\ ascii (ser u).
+Proof. exact reparse_nonfile_HostOK2. Qed.
+Check C02_reparse_nonfile2 : forall dbg hp hpo hd input u,
+  HostOK2 hp hpo hd -> usv_list input -> nonfile_input input = true ->
+  parse_url dbg hp hpo hd None None input = POk u ->
+  parse_url dbg hp hpo hd None None (utf8_lossy (ser u)) = POk u /\ wf_b u = true /\ ascii (ser u).
+Print Assumptions C02_reparse_nonfile2.
+
+(* under the old HostOK (vacuous for url::Host; superseded by C02_reparse_nonfile2) *)
 Theorem C02_reparse_nonfile : forall dbg hp hpo hd input u,
   HostOK hp hpo hd -> host_above hp hpo hd -> usv_list input -> nonfile_input input = true ->
   parse_url dbg hp hpo hd None None input = POk u ->
@@ -422,6 +503,153 @@ Example C02_nonfile_inhabited :
   nonfile_input (B "about:blank") = true /\ nonfile_input (B "a:/x/../y") = true /\ nonfile_input (B "a://u@h:1/") = true
   /\ nonfile_input (B "HTTPS:\h") = true /\ nonfile_input (B "file:///x") = false /\ nonfile_input (B "/relative") = false.
 Proof. exact nonfile_examples. Qed.
+
+(* ---------- J. L2 for set_fragment, set_query, set_port; histories of parse + these setters ---------- *)
+(* Canon = the union of the four canonical forms of sections C, D, G, H (opaque path; no authority; authority and
+   non-special scheme; special non-file scheme).  Every Canon record is a fixpoint of re-parsing, every parse
+   result without base of a non-file scheme is Canon (special schemes: without encoding override) *)
+Theorem C02_Canon_fixpoint : forall dbg hp hpo hd, HostRT hp hpo hd -> forall u, Canon hp hpo hd u ->
+  Fixpoint_of_reparse dbg hp hpo hd u /\ wf_b u = true /\ ascii (ser u).
+Proof. exact Canon_fixpoint. Qed.
+Check C02_Canon_fixpoint : forall dbg hp hpo hd, HostRT hp hpo hd -> forall u, Canon hp hpo hd u ->
+  parse_url dbg hp hpo hd None None (utf8_lossy (ser u)) = POk u /\ wf_b u = true /\ ascii (ser u).
+Print Assumptions C02_Canon_fixpoint.
+
+Theorem C02_parse_Canon : forall dbg hp hpo hd, HostRT hp hpo hd -> forall ovr input u,
+  host_above hp hpo hd -> usv_list input -> nonfile_input input = true ->
+  (ovr = None \/ special_input input = false) ->
+  parse_url dbg hp hpo hd ovr None input = POk u -> Canon hp hpo hd u.
+Proof. exact parse_Canon. Qed.
+Print Assumptions C02_parse_Canon.
+
+(* the three setters keep Canon, for arbitrary arguments.  Premise nlen (ser u') <= U32_MAX_P: the new
+   serialization fits the u32 offsets; beyond it Url::set_* panics in to_u32(..).unwrap() (no Url value results),
+   which the model of the setters does not show, and the re-parse fails with Overflow *)
+Theorem C02_set_fragment_Canon : forall dbg hp hpo hd, HostRT hp hpo hd -> forall u fr u',
+  Canon hp hpo hd u -> usv_opt fr -> set_fragment dbg u fr = Some u' -> nlen (ser u') <= U32_MAX_P ->
+  Canon hp hpo hd u'.
+Proof. exact set_fragment_Canon. Qed.
+Check C02_set_fragment_Canon : forall dbg hp hpo hd, HostRT hp hpo hd -> forall u fr u',
+  Canon hp hpo hd u -> (match fr with Some s => usv_list s | None => True end) ->
+  set_fragment dbg u fr = Some u' -> nlen (ser u') <= 4294967295 -> Canon hp hpo hd u'.
+Print Assumptions C02_set_fragment_Canon.
+
+Theorem C02_set_query_Canon : forall dbg hp hpo hd, HostRT hp hpo hd -> forall u qr u',
+  Canon hp hpo hd u -> usv_opt qr -> set_query dbg u qr = Some u' -> nlen (ser u') <= U32_MAX_P ->
+  Canon hp hpo hd u'.
+Proof. exact set_query_Canon. Qed.
+Check C02_set_query_Canon : forall dbg hp hpo hd, HostRT hp hpo hd -> forall u qr u',
+  Canon hp hpo hd u -> (match qr with Some s => usv_list s | None => True end) ->
+  set_query dbg u qr = Some u' -> nlen (ser u') <= 4294967295 -> Canon hp hpo hd u'.
+Print Assumptions C02_set_query_Canon.
+
+Theorem C02_set_port_Canon : forall dbg hp hpo hd u n u' s, Canon hp hpo hd u ->
+  (match n with Some x => x <= 65535 | None => True end) ->
+  set_port dbg u n = Some (u', s) -> nlen (ser u') <= U32_MAX_P -> Canon hp hpo hd u'.
+Proof. exact set_port_Canon. Qed.
+Check C02_set_port_Canon : forall dbg hp hpo hd u n u' s, Canon hp hpo hd u ->
+  (match n with Some x => x <= 65535 | None => True end) ->
+  set_port dbg u n = Some (u', s) -> nlen (ser u') <= 4294967295 -> Canon hp hpo hd u'.
+Print Assumptions C02_set_port_Canon.
+
+(* the setters computed on the common shape pre ++ ["?" q] ++ ["#" f] of every canonical record *)
+Theorem C02_set_fragment_shape : forall dbg pre se ue hs he hi pt ps q f input, usv_list input ->
+  set_fragment dbg (qf_url pre se ue hs he hi pt ps q f) (Some input)
+  = Some (qf_url pre se ue hs he hi pt ps q (Some (frag_of input))).
+Proof. exact set_fragment_qf_some. Qed.
+Print Assumptions C02_set_fragment_shape.
+
+Theorem C02_set_query_shape : forall dbg pre se ue hs he hi pt ps sch, nfirstn se pre = sch -> se <= nlen pre ->
+  forall q f input, usv_list input ->
+  set_query dbg (qf_url pre se ue hs he hi pt ps q f) (Some input)
+  = Some (qf_url pre se ue hs he hi pt ps (Some (squery_of (scheme_type_of sch) input)) f).
+Proof. exact set_query_qf_some. Qed.
+Print Assumptions C02_set_query_shape.
+
+Theorem C02_set_port_shape : forall dbg F R se ue hs hi pt p' q f,
+  set_port_internal dbg (hp_url F pt R se ue hs hi q f) p' = Some (hp_url F p' R se ue hs hi q f).
+Proof. exact set_port_internal_frame. Qed.
+Print Assumptions C02_set_port_shape.
+
+(* joins (G1, first part): a scheme-less reference that is - after trimming and tab/newline removal - empty,
+   fragment-only ("#...") or query-led ("?...", possibly followed by "#...") against a Canon base (for "#..." any
+   Canon base, also an opaque-path one; otherwise a cannot-be-a-base base is refused by the parser): the result is
+   Canon, hence a fixpoint.  The base's encoding override must be absent or its scheme non-special.  The path
+   arms of the relative state (path-absolute, path-relative, scheme-relative) are NOT covered. *)
+Theorem C02_join_tail_Canon : forall dbg hp hpo hd, HostRT hp hpo hd -> forall ovr b input u,
+  Canon hp hpo hd b -> usv_list input -> tail_ref input = true ->
+  (ovr = None \/ st_is_special (scheme_type_of (b_scheme b)) = false) ->
+  parse_url dbg hp hpo hd ovr (Some b) input = POk u -> Canon hp hpo hd u.
+Proof. exact join_tail_Canon. Qed.
+Print Assumptions C02_join_tail_Canon.
+
+Theorem C02_join_tail_fixpoint : forall dbg hp hpo hd, HostRT hp hpo hd -> forall ovr b input u,
+  Canon hp hpo hd b -> usv_list input -> tail_ref input = true ->
+  (ovr = None \/ st_is_special (scheme_type_of (b_scheme b)) = false) ->
+  parse_url dbg hp hpo hd ovr (Some b) input = POk u ->
+  Fixpoint_of_reparse dbg hp hpo hd u /\ wf_b u = true /\ ascii (ser u).
+Proof. exact join_tail_fixpoint. Qed.
+Check C02_join_tail_fixpoint : forall dbg hp hpo hd, HostRT hp hpo hd -> forall ovr b input u,
+  Canon hp hpo hd b -> usv_list input -> tail_ref input = true ->
+  (ovr = None \/ st_is_special (scheme_type_of (b_scheme b)) = false) ->
+  parse_url dbg hp hpo hd ovr (Some b) input = POk u ->
+  parse_url dbg hp hpo hd None None (utf8_lossy (ser u)) = POk u /\ wf_b u = true /\ ascii (ser u).
+Print Assumptions C02_join_tail_fixpoint.
+
+Example C02_join_tail_inhabited :
+  tail_ref (B " #x y") = true /\ tail_ref (B "?a b#c") = true /\ tail_ref (B "  ") = true
+  /\ tail_ref (B "x") = false /\ tail_ref (B "a:b") = false
+  /\ match parse_url true ex_hp ex_hp ex_hd None None (B "http://h/p?q#f") with
+     | POk b => match parse_url true ex_hp ex_hp ex_hd None (Some b) (B "?a b#c") with
+                | POk u => list_eqb (ser u) (B "http://h/p?a%20b#c") | _ => false end
+                && match parse_url true ex_hp ex_hp ex_hd None (Some b) (B " #x y") with
+                   | POk u => list_eqb (ser u) (B "http://h/p?q#x%20y") | _ => false end
+                && match parse_url true ex_hp ex_hp ex_hd None (Some b) (B "") with
+                   | POk u => list_eqb (ser u) (B "http://h/p?q") | _ => false end
+     | _ => false
+     end = true.
+Proof. exact join_tail_examples. Qed.
+
+(* C02_statement restricted to the histories  Url::parse (no base, non-file scheme; special schemes without
+   encoding override)  followed by any number of set_fragment / set_query / set_port calls with arbitrary
+   arguments and of joins with a tail_ref reference (ReachC): every record of such a history is a fixpoint of re-parsing, satisfies wf_b and is ASCII.
+   ReachC is inside Reachable2, the quantifier of C02_statement.
+   Still missing for C02_statement: the file scheme, joins through the path arms of the relative state and
+   absolute references against a base, an encoding override on special schemes, the other
+   sixteen mutators (set_username / set_password / set_host / set_ip_host / set_path / set_scheme,
+   path_segments_mut, the quirks setters). *)
+Theorem C02_reach_partial : forall dbg hp hpo hd, HostOK2 hp hpo hd -> forall u, ReachC dbg hp hpo hd u ->
+  Fixpoint_of_reparse dbg hp hpo hd u /\ wf_b u = true /\ ascii (ser u).
+Proof. exact reach_partial. Qed.
+Check C02_reach_partial : forall dbg hp hpo hd, HostOK2 hp hpo hd -> forall u, ReachC dbg hp hpo hd u ->
+  parse_url dbg hp hpo hd None None (utf8_lossy (ser u)) = POk u /\ wf_b u = true /\ ascii (ser u).
+Print Assumptions C02_reach_partial.
+
+Theorem C02_reach_partial_in_statement : forall dbg hp hpo hd, HostOK2 hp hpo hd -> forall u,
+  ReachC dbg hp hpo hd u -> Reachable2 dbg hp hpo hd u.
+Proof. exact ReachC_Reachable2. Qed.
+Print Assumptions C02_reach_partial_in_statement.
+
+(* the same for the parser model linked with the host model: the only premise about hosts is IdnaOK *)
+Theorem C02_reach_partial_model : forall dbg idna, IdnaOK idna -> forall u,
+  ReachC dbg (host_parse idna) host_parse_opaque host_display u ->
+  Fixpoint_of_reparse dbg (host_parse idna) host_parse_opaque host_display u /\ wf_b u = true /\ ascii (ser u).
+Proof. exact (fun dbg idna OK => reach_partial dbg _ _ _ (HostOK2_model idna OK)). Qed.
+Print Assumptions C02_reach_partial_model.
+
+(* non-vacuity: http://EXAMPLE.com:80/a/../b?x#y -> set_port(8080) -> set_query("k=v w#") -> set_fragment(None)
+   -> set_port(80) -> set_fragment("f g") = http://EXAMPLE.com/b?k=v%20w%23#f%20g, a fixpoint; and
+   "a:b c  ?q" -> set_query(None) = "a:b c" (trailing spaces of the opaque path stripped) *)
+Example C02_reach_partial_inhabited :
+  match ex_hist "http://EXAMPLE.com:80/a/../b?x#y"
+          [OSetPort (Some 8080); OSetQuery (Some (B "k=v w#")); OSetFragment None; OSetPort (Some 80); OSetFragment (Some (B "f g"))] with
+  | Some u => list_eqb (ser u) (B "http://EXAMPLE.com/b?k=v%20w%23#f%20g")
+              && match parse_url true ex_hp ex_hp ex_hd None None (ser u) with POk v => url_eqb v u | _ => false end
+  | None => false
+  end = true
+  /\ match ex_hist "a:b c  ?q" [OSetQuery None] with
+     | Some u => list_eqb (ser u) (B "a:b c") | None => false end = true.
+Proof. exact reach_partial_example. Qed.
 
 (* ---------- F. every excluded class contains a history that is not a fixpoint ---------- *)
 Theorem C02_F_C03_5_refuted :
@@ -452,6 +680,47 @@ Theorem C02_F_C02_4_refuted :
   witness_step (fun u o => Known_F_C02_4 u o) "a://h:80/" (OSetHost (Some [])) "a://:80/" = true.
 Proof. exact F_C02_4_refuted. Qed.
 Print Assumptions C02_F_C02_4_refuted.
+
+(* F-C02-9: set_ip_host with an IPv4 address on a URL whose scheme is not special - same text and offsets, host
+   kind Ipv4 vs Domain after re-parsing; the step is outside the old known_step (second conjunct) *)
+Theorem C02_F_C02_9_refuted :
+  witness_step Known_F_C02_9 "a://x/" (OSetIpHost (HIpv4 2130706433)) "a://127.0.0.1/" = true
+  /\ match toy_parse "a://x/" with
+     | POk u => negb (known_step true toy_hp toy_hp toy_hd u (OSetIpHost (HIpv4 2130706433)))
+                && match toy_apply u (OSetIpHost (HIpv4 2130706433)) with
+                   | Some u' => hi_eqb (hosti u') (HI_Ipv4 2130706433)
+                                && match toy_reparse u' with
+                                   | POk v => list_eqb (ser v) (ser u') && hi_eqb (hosti v) HI_Domain
+                                   | _ => false
+                                   end
+                   | None => false
+                   end
+     | _ => false
+     end = true.
+Proof. exact F_C02_9_refuted. Qed.
+Print Assumptions C02_F_C02_9_refuted.
+
+(* the same on the parser model linked with the host model (Model/Host.v, idna_clean) *)
+Theorem C02_F_C02_9_model :
+  match mparse (B "a://x/") with
+  | POk u =>
+      let o := OSetIpHost (HIpv4 2130706433) in
+      negb (known_step true (host_parse idna_clean) host_parse_opaque host_display u o)
+      && Known_F_C02_9 u o
+      && known_step2 true (host_parse idna_clean) host_parse_opaque host_display u o
+      && match apply_op true (host_parse idna_clean) host_parse_opaque host_display u o with
+         | Some u' =>
+             list_eqb (ser u') (B "a://127.0.0.1/") && hi_eqb (hosti u') (HI_Ipv4 2130706433)
+             && match mparse (utf8_lossy (ser u')) with
+                | POk v => list_eqb (ser v) (ser u') && hi_eqb (hosti v) HI_Domain && negb (url_eqb v u')
+                | _ => false
+                end
+         | None => false
+         end
+  | _ => false
+  end = true.
+Proof. exact F_C02_9_model. Qed.
+Print Assumptions C02_F_C02_9_model.
 
 Theorem C02_F_C02_1_refuted :
   match toy_parse "file://x.y///c:" with
